@@ -7,6 +7,7 @@ mod fam_c04;
 mod fam_c11;
 mod fam_c06;
 mod fam_hist;
+mod fam_hasher;
 
 fn main() {
     let args: Vec<String> = std::env::args().collect();
@@ -20,11 +21,12 @@ fn main() {
     match args[1].as_str() {
         "c12" => fam_c12::run(seed, thorough),
         "c13" => fam_c13::run(seed, thorough),
-        "e2e" => fam_e2e::run(seed, thorough),
+        "e2e" => fam_e2e::run(seed, thorough, args.iter().any(|a| a == "lite")),
         "c04" => fam_c04::run(seed, thorough),
         "c11" => fam_c11::run(seed, thorough),
         "c06" => fam_c06::run(seed, thorough),
         "hist" => fam_hist::run(seed, thorough),
+        "hasher" => fam_hasher::run(seed, thorough),
         other => {
             eprintln!("unknown family {}", other);
             std::process::exit(2);
